@@ -660,6 +660,43 @@ func scMaxRecv(tr string, viaSocket bool, msglen int, sets []string) string {
 	return "delivered"
 }
 
+// scAlias: an option value handed over as a []byte belongs to the caller again once SetOption has returned: the caller
+// re-uses the buffer and the accepted value must not follow it.  (SUB topics are the []byte-valued options.)
+func scAlias(onCtx bool) string {
+	sock := wire.New("sub")
+	defer sock.Close()
+	var tgt interface {
+		SetOption(string, interface{}) error
+	} = sock
+	if onCtx {
+		c, err := sock.OpenContext()
+		if err != nil {
+			return "openctx:" + short(err)
+		}
+		tgt = c
+	}
+	buf := []byte("AAA")
+	if err := tgt.SetOption(mangos.OptionSubscribe, buf); err != nil {
+		return "subscribe:" + short(err)
+	}
+	copy(buf, "zzz") // the caller builds its next topic in the same buffer
+	if err := tgt.SetOption(mangos.OptionSubscribe, buf); err != nil {
+		return "subscribe2:" + short(err)
+	}
+	copy(buf, "qqq")
+	// both AAA and zzz are subscribed, qqq is not
+	r := ""
+	for _, t := range []string{"AAA", "zzz", "qqq"} {
+		if tgt.SetOption(mangos.OptionUnsubscribe, []byte(t)) == nil {
+			r += t
+		}
+	}
+	if r == "AAAzzz" {
+		return "kept"
+	}
+	return "aliased:" + r
+}
+
 func runScenario(spec string) {
 	f := strings.Fields(spec)
 	atoi := func(s string) int { v, _ := strconv.Atoi(s); return v }
@@ -685,6 +722,8 @@ func runScenario(spec string) {
 			out = scRetry(atoi(f[1]), atoi(f[2]))
 		case "origin":
 			out = scOrigin(f[1:])
+		case "alias":
+			out = scAlias(f[1] == "ctx")
 		case "maxrecv":
 			out = scMaxRecv(f[1], f[2] == "sock", atoi(f[3]), f[4:])
 		}
@@ -764,6 +803,7 @@ func allScenarios() []scenario {
 		}
 		sc = append(sc, scenario{strings.TrimSpace("origin " + seq), "EOrigin " + coqgen.List(bs)})
 	}
+	sc = append(sc, scenario{"alias sock", "EAlias false"}, scenario{"alias ctx", "EAlias true"})
 	// MAX-RCV-SIZE on a listener, directly or through its socket, before and after Listen: the limit in force for a connection
 	// accepted later is the last value set (0 = none; the default is 1 MiB)
 	for ti, tr := range []string{"tcp", "ipc", "tls+tcp", "ws", "wss"} {
